@@ -96,6 +96,7 @@ template <class S> static void explore(const std::string& sol, const std::vector
   }
   long hist = 0, viol = 0, aborted = 0; Elem base;
   size_t w0 = sizeof(S) == 8 ? 8 : 10;
+  bool fork_each = n <= 4;  // tiny solutions (sod_1d): one process per element, because an inadmissible element may make the library abort
   // reference for (e), taken BEFORE this process has evaluated anything in this scalar type (a child forked later would inherit whatever
   // the evaluators have bound or cached by then): the values of assignment B = 1.0625 x base, computed on a handle of its own
   std::string ref;
@@ -130,7 +131,27 @@ template <class S> static void explore(const std::string& sol, const std::vector
     }
   }
   std::cout.setstate(std::ios::failbit);
-  bool fork_each = n <= 4;  // tiny solutions (sod_1d): one process per target, because an inadmissible element may make the library abort
+  // (fork_each is declared above)  tiny solutions (sod_1d): one process per target, because an inadmissible element may make the library abort
+  // (i) the library must leave the process-global floating-point CONTROL state alone (x87 precision/rounding control word, SSE MXCSR control
+  // bits, fegetround): every parameter is swept finely (the iteration count of an internal solver, and with it the path it leaves by,
+  // depends on the value) and the control state is compared after every evaluation
+  if (!getenv("O2_SELECTION_ONLY") && n > 0) {
+    auto ctl = [] { unsigned short cw = 0; unsigned int mx = 0;
+#if defined(__x86_64__) || defined(__i386__)
+      __asm__ __volatile__("fnstcw %0" : "=m"(cw)); __asm__ __volatile__("stmxcsr %0" : "=m"(mx)); mx &= 0xFFC0u;  // control bits only (status flags masked)
+#endif
+      return std::make_pair((unsigned)cw | ((unsigned)fegetround() << 16), mx); };
+    auto c0 = ctl(); LD cs[4]; int per = std::max(8, std::min(512, 2048 / n)); bool reported = false;
+    for (int i = 0; i < n && !reported; i++) { if (i == R.iMu) continue;
+      for (int k = 1; k <= per && !reported; k++) {
+        LD f = 0.75L + 2.25L * k / per;  // 0.75 .. 3 times the base value
+        pid_t fc = 0; if (fork_each) { fflush(out); fc = fork(); if (fc != 0) { int st; waitpid(fc, &st, 0); if (WIFEXITED(st) && WEXITSTATUS(st) == 7) reported = true; continue; } else { int dn = open("/dev/null", O_WRONLY); dup2(dn, 1); close(dn); } }
+        Elem e1; e1.mv = {{0, i, f}}; R.apply(e1, 0, 0, cs); R.eval_all(cs); auto c1 = ctl(); hist++;
+        if (c1 != c0) { viol++; reported = true; fprintf(out, "V\t%s\t%s\t*\tan evaluation with %s = %Lg x base changed the floating-point control state of the process (x87 control word / rounding mode %#x -> %#x, MXCSR control %#x -> %#x): every later long double result of every solution is affected\n", sol.c_str(), scal, R.names[i].c_str(), f, c0.first, c1.first, c0.second, c1.second); fflush(out); if (fork_each) _exit(7); }
+        if (fork_each) _exit(0);
+      } }
+    if (!fork_each) R.apply(base, 0, 0, cs);
+  }
   // (h) re-entrant user functions
   if (!getenv("O2_SELECTION_ONLY")) for (size_t k = 0; k < R.ev.size(); k++) if (strchr(R.ev[k]->sig, 'F')) for (size_t q = 0; q < R.ev.size(); q++) {
     LD cb0[4]; R.apply(base, 0, 0, cb0);
